@@ -81,6 +81,8 @@ def make_server(sc, handler, **kw):
     if tr == 'tls':
         p = pki()
         return FS.TlsServer(p['srv_crt'], p['srv_key'], caps=caps, handler=handler, **kw)
+    if tr == 'ssh':
+        return FS.SshServer(caps=caps, handler=handler, **kw)
     raise ValueError(tr)
 
 
@@ -95,6 +97,8 @@ def connect(srv, sc, **kw):
                                    keyfile=os.path.join(CERT_DIR, 'test.key'), ca_certs=sc.get('ca_certs') or pki()['ca'],
                                    protocol=ssl.PROTOCOL_TLS_CLIENT, check_hostname=sc.get('check_hostname', True),
                                    server_hostname=sc.get('server_hostname'), device_params=dp, **kw)
+    if tr == 'ssh':
+        return srv.connect(password=sc.get('password', 'pw'), device_params=dp, **kw)
     raise ValueError(tr)
 
 
